@@ -156,9 +156,9 @@ def check_state(ctx, machine, hist, seed):
                             e = machine.eval_expr(X.ExprMem(ad, w), {})
                         v = sym_value(e, val, X)
                     except core.Timeout:
-                        return ('read-back:timeout %s' % cell_geometry(machine, val, X, cad, w), 'eval_expr(@%d[%s]) does not terminate' % (w, ad))
+                        return ('read-back:error %s' % cell_geometry(machine, val, X, cad, w), 'eval_expr(@%d[%s]) does not terminate' % (w, ad))
                     except Exception as ex:
-                        return ('read-back:%s %s' % (type(ex).__name__, cell_geometry(machine, val, X, cad, w)),
+                        return ('read-back:error %s' % cell_geometry(machine, val, X, cad, w),
                                 'read-back @%d[%s%+d] raises %r' % (w, base or 'const', off if base else off - 0x1000, ex))
                     exp = cm.read(cad, w)
                     if v != exp:
@@ -278,15 +278,15 @@ def storeload_case(ctx, part, base, stores, load):
             ad = X.ExprOp('+', basee, X.ExprInt32(off)) if off else basee
             e = m.eval_expr(X.ExprMem(ad, w), {})
     except core.Timeout:
-        return ('timeout', 'does not terminate')
+        return ('error', 'does not terminate')
     except Exception as ex:
-        return ('raises:%s' % type(ex).__name__, repr(ex)[:100])
+        return ('error', 'raises ' + repr(ex)[:100])
     ids = dict(vals)
     ids['init_esi'] = BASES['esi']
     try:
         v = irsem.ev_int(irsem.to_neutral(e), irsem.Env(ids, {}, 5))
     except Exception as ex:
-        return ('result-malformed', 'result %s cannot be evaluated: %r' % (str(e)[:100], ex))
+        return ('error', 'result %s cannot be evaluated: %r' % (str(e)[:100], ex))
     exp = irsem.Env({}, cm, 5).read(bval + off, w)
     if v != exp:
         return ('value', 'load gives %s = %#x, byte memory holds %#x' % (str(e)[:120], v, exp))
@@ -314,12 +314,18 @@ def geometry(stores, load):
 
 
 # ---------------------------------------------------------------------------
-def rep_cases():
+def rep_cases(tier='quick'):
     for op, hx in (('stosb', 'f3aa'), ('movsb', 'f3a4'), ('stosd', 'f3ab'), ('repe cmpsb', 'f3a6'), ('repne scasb', 'f2ae')):
         for n in (0, 1, 2, 3):
             for df in (0, 1):
                 for pre in (0, 1, 2):
                     yield op, hx, n, df, pre
+    # the runaway guard of the rep loop: counts at its boundary
+    yield 'stosb', 'f3aa', 0x1000, 0, 0
+    if tier == 'thorough':
+        yield 'stosb', 'f3aa', 0xfff, 0, 0
+        yield 'stosb', 'f3aa', 0x1001, 0, 0
+        yield 'movsb', 'f3a4', 0x1000, 1, 0
 
 
 def rep_case(ctx, op, hx, n, df, pre):
@@ -339,7 +345,7 @@ def rep_case(ctx, op, hx, n, df, pre):
         cm.mem[0x3000 + k] = 7
         cm.mem[0x2000 + k] = 7 + a if op.startswith('repe') else (2 if a == 2 else 9)
     try:
-        with core.watchdog(20):
+        with core.watchdog(20 if n < 100 else 600):
             for a in setup:
                 m.eval_instr([a])
             ins = ia32.x86mnemo.dis(bytes.fromhex(hx))
@@ -407,8 +413,8 @@ def shard(s, ns, tier, seed):
                 part.violation('storeload base=%s %s fail=%s' % (base, geometry(stores, load), r[0]),
                                'stores %s then load %s (offset, bits; base %s): %s' % (list(stores), load, base, r[1]),
                                {'kind': 'storeload', 'base': base, 'stores': [list(x) for x in stores], 'load': list(load)}, size=len(stores) * 100 + sum(o for o, w in stores) + load[0])
-        for i, (op, hx, n, df, pre) in enumerate(rep_cases()):
-            if i % ns != s:
+        for i, (op, hx, n, df, pre) in enumerate(rep_cases(tier)):
+            if (i * 7) % ns != s:
                 continue
             try:
                 r = rep_case(ctx, op, hx, n, df, pre)
@@ -421,7 +427,7 @@ def shard(s, ns, tier, seed):
             if r is None:
                 part.keys.add(core.h64(('rep', op, n, df, pre)))
             else:
-                part.violation('rep op=%s count=%s fail=%s' % (op, '0' if n == 0 else 'n', r[0]), 'ecx=%d df=%d %s (termination position %d): %s' % (n, df, op, pre, r[1]),
+                part.violation('rep op=%s count=%s fail=%s' % (op, '0' if n == 0 else ('n' if n < 100 else hex(n)), r[0]), 'ecx=%d df=%d %s (termination position %d): %s' % (n, df, op, pre, r[1]),
                                {'kind': 'rep', 'op': op, 'hex': hx, 'n': n, 'df': df, 'pre': pre}, size=n)
     return part
 
